@@ -271,7 +271,7 @@ func (g *gen) visible(file int, rule, filter func(*defInfo) bool) []target {
 	return out
 }
 
-func anyDef(*defInfo) bool { return true }
+func anyDef(*defInfo) bool      { return true }
 func isService(d *defInfo) bool { return d.Kind == "service" }
 
 func sortTargets(ts []target) {
